@@ -198,17 +198,23 @@ h("cont.H_OptionalFault", map[string]int{"rounds": 3, "order_schemes": 1}, map[s
 	web := func(mod, name string, cov []string, desc string) harnessSpec {
 		return harnessSpec{Name: name, Module: mod, Quick: map[string]int{"order_schemes": 1}, Thorough: map[string]int{"order_schemes": 2}, Covers: cov, Xval: 15, Desc: desc}
 	}
-	const webConcDesc = "(happens-before race detector on) two requests in flight at once through one middleware instance (two harness goroutines, the handler yields between two uses of its scope; every interleaving explored): no request loses or shares its scope or scoped instance, both scopes closed exactly once"
+	const webConcDesc = "(happens-before race detector on) two requests in flight at once through one middleware instance (two harness goroutines, the handler yields between two uses of its scope; every interleaving at those points, plus up to g2 involuntary context switches in front of any lock / atomic / sync.Map operation godi performs while creating, using and closing the two request scopes): no request loses or shares its scope or scoped instance, both scopes closed exactly once"
+	webc := func(mod, name string, cov []string, desc string) harnessSpec {
+		hs := web(mod, name, cov, desc)
+		hs.Quick = map[string]int{"order_schemes": 1, "g2": 2}
+		hs.Thorough = map[string]int{"order_schemes": 2, "g2": 3}
+		return hs
+	}
 	properties = append(properties,
 		propertySpec{ID: "C16", Harnesses: []harnessSpec{
 			web("harness_http", "webh.H_Http", []string{"request_done"}, webDesc("net/http")),
 			web("harness_gin", "webh.H_Gin", []string{"request_done"}, webDesc("gin (inside the real gin engine)")),
-			web("harness_gin", "webh.H_GinConc", []string{"both_served"}, webConcDesc),
-			web("harness_http", "webh.H_HttpConc", []string{"both_served"}, webConcDesc),
+			webc("harness_gin", "webh.H_GinConc", []string{"both_served"}, webConcDesc),
+			webc("harness_http", "webh.H_HttpConc", []string{"both_served"}, webConcDesc),
 			web("harness_chi", "webh.H_Chi", []string{"request_done"}, webDesc("chi (net/http handler chain)")),
-			web("harness_chi", "webh.H_ChiConc", []string{"both_served"}, webConcDesc),
-			web("harness_echo", "webh.H_EchoConc", []string{"both_served"}, webConcDesc),
-			web("harness_fiber", "webh.H_FiberConc", []string{"both_served"}, webConcDesc),
+			webc("harness_chi", "webh.H_ChiConc", []string{"both_served"}, webConcDesc),
+			webc("harness_echo", "webh.H_EchoConc", []string{"both_served"}, webConcDesc),
+			webc("harness_fiber", "webh.H_FiberConc", []string{"both_served"}, webConcDesc),
 			web("harness_echo", "webh.H_Echo", []string{"request_done"}, webDesc("echo (inside a real echo instance; handler may also return an error)")),
 			web("harness_fiber", "webh.H_Fiber", []string{"request_done"}, webDesc("fiber (inside a real fiber app on a fasthttp RequestCtx, served like the fasthttp server: handler, then release of user values; optionally fiber's own recover middleware in front; scope in Locals and in the user context)")),
 		}},
@@ -236,6 +242,7 @@ h("cont.H_OptionalFault", map[string]int{"rounds": 3, "order_schemes": 1}, map[s
 	hcb := h("cont.H_CloseInCallback", map[string]int{"order_schemes": 1}, map[string]int{"order_schemes": 2}, []string{"callback_closed"}, 10, cbDesc)
 	properties = append(properties,
 		propertySpec{ID: "C09", Harnesses: []harnessSpec{hc1, hcb, hrace, hrace2, hg2,
+			h("cont.H_SharedCodeConc", map[string]int{"rounds": 1, "race": 1, "g2": 1, "order_schemes": 1}, map[string]int{"rounds": 2, "race": 1, "g2": 1, "order_schemes": 1}, []string{"both_done"}, 0, "(race detector on, G2 scheduling with one pre-emption in front of any lock / atomic / sync.Map operation of godi, i.e. inside the analyzer's cache and the scope tables) constructors sharing code resolved by two goroutines in their own scopes; no race, no panic, no error, each service built by its own constructor"),
 			h("cont.H_SharedCodeConc", map[string]int{"rounds": 2, "order_schemes": 1}, map[string]int{"rounds": 2, "order_schemes": 1}, []string{"both_done"}, 10, "(happens-before race detector on) scoped or transient services whose constructors share code - reflect.MakeFunc values of two different signatures (natively one code pointer, so the analysis cache keeps being rewritten after Build), or closures of one literal under two names with a yielding dependency - resolved alternately by two goroutines in their own scopes; every interleaving at the resolution boundaries; no race, no panic, no error, each service built by its own constructor"),
 		}},
 		propertySpec{ID: "C13", Harnesses: []harnessSpec{
